@@ -143,6 +143,17 @@ def case_exchange(p):
         other = srp.Exchange(G, USER, code, salt, a, b + 1)
         if c.verify_servers_proof_bytes(other.M2_server):
             out.append(("controller-accepts-proof-of-other-exchange", d))
+        # verdicts do not depend on what was shown before: after all those wrong proofs the correct one is still accepted, and on a fresh
+        # client a wrong proof first, then the right one, then a wrong one again come out wrong / right / wrong
+        try:
+            if c.verify_servers_proof_bytes(ex.M2_server) is not True:
+                out.append(("controller-rejects-the-correct-proof-after-other-proofs-were-shown", d))
+            c3 = _client(code, salt, a, ex.B_pad)
+            seq = [bool(c3.verify_servers_proof_bytes(x)) for x in (other.M2_server, ex.M2_server, other.M2_server, ex.M2_server)]
+            if seq != [False, True, False, True]:
+                out.append(("verdict-on-a-proof-depends-on-the-proofs-shown-before", {**d, "wrong-right-wrong-right": seq}))
+        except Exception as e:  # noqa: BLE001
+            out.append((f"verify-raises:{type(e).__name__}", {**d, "phase": "repeated verification"}))
     return out
 
 
